@@ -139,7 +139,7 @@ Proof. intros Hn H. unfold ixe_irreducible2 in H.
 
 Theorem random_irreducible_shape n MOD s R s' : (1 <= n)%nat -> random_irreducible p n MOD s = Some (R, s') ->
   is_irreducible p (norm R) MOD = true /\ length R = S n /\ nth n R 0 = 1.
-Proof. intros Hn H. eapply find_irred_randomial_shape; eassumption. Qed.
+Proof. intros Hn H. exact (find_irred_randomial_shape p (fun R => is_irreducible p (norm R) MOD) n MOD _ _ _ _ Hn H). Qed.
 
 (* ---- primitive-root requests: the element returned passed is_prim_root *)
 Lemma gpr_binomials_spec F MOD : forall dis R, gpr_binomials p F MOD dis = Some R -> is_prim_root p (norm R) F MOD = true.
